@@ -28,6 +28,9 @@ class geophires_main(Contract):
     raises_at_call = (Exception, SystemExit)
 
     def apply_at_call(self, ex, st, args, kwargs, node):
+        av = st.heap.get(("glob", "sys.argv"))
+        if isinstance(av, list):
+            st.heap[("glob", "argv_at_main")] = tuple(av)              # ghost: what main() is entered with (C20)
         st.heap[("glob", "cwd")] = Opaque("cwd@inside-geophires")      # os.chdir(dirname(__file__)), not restored
         st.effects.append(("cwd", "write"))
         outs = super().apply_at_call(ex, st, args, kwargs, node)
